@@ -11,6 +11,7 @@ import warnings
 from hypothesis import strategies as st
 
 import pendulum
+from pendulum import DateTime
 from vf import env
 from vf import oracle_tz as T
 from vf import strategies as S
@@ -194,8 +195,6 @@ class Direction(Sub):
                 if wall_order != inst_order:
                     raise Known("K-C05-1", "direction decided on wall-clock order")
                 raise Violation("direction marker does not match the order of the two instants", got=s, expected_marker=exp, a=str(a), b=str(b))
-        if wall_order != inst_order:
-            raise Skip("same-zone pair whose wall order differs from instant order: the calendar breakdown is outside C06's stated domain, magnitude not asserted (direction is)")
         lo, hi = (a, b) if u1 <= u2 else (b, a)
         wl, wh = D.datetime(*T.fields(lo)), D.datetime(*T.fields(hi))
         elapsed = abs(u2 - u1)
@@ -418,4 +417,46 @@ class LargeCounts(Sub):
         return True, loc
 
 
-SUBS = [Phrases(), Direction(), InWords(), LocaleTokens(), OtherEntryPoints(), LargeCounts()]
+class CrossTzinfo(Sub):
+    name = "cross_tzinfo_pairs"
+    backends = ("py", "rust")
+    n = {"quick": 5000, "thorough": 100000}
+    shards = {"quick": 2, "thorough": 4}
+    rule = ("two pendulum DateTimes whose tzinfo objects differ in kind or value - stdlib datetime.timezone offsets (nameless), FixedTimezone, named zones, mixed - x "
+            "spans from seconds to years: diff_for_humans / in_words give the phrase of the same two instants rendered in UTC (endpoints in different timezones are "
+            "decomposed in UTC) and the direction of the instants; non-trivial: at least one tzinfo is a nameless stdlib offset")
+
+    def strategy(self, ctx):
+        kind = st.sampled_from(["stdlib", "stdlib", "fixed", "named"])
+        off = st.sampled_from([0, 3600, -3600, 14 * 3600, -12 * 3600, 19800, -34200, 50400]) | st.integers(-1439, 1439).map(lambda m: m * 60)
+        span = st.one_of(S.uni(0, 70 * US), S.uni(0, 3 * 3600 * US), S.uni(0, 4 * 86400 * US), S.uni(0, 70 * 86400 * US), S.uni(0, 4000 * 86400 * US))
+        return st.fixed_dictionaries({"k1": kind, "k2": kind, "o1": off, "o2": off, "z1": st.sampled_from(["Europe/Paris", "America/New_York", "Pacific/Kiritimati", "UTC"]),
+                                      "z2": st.sampled_from(["Asia/Tokyo", "America/Los_Angeles", "Pacific/Pago_Pago", "Europe/London"]),
+                                      "u1": S.uni(-10**15, 3 * 10**15), "span": span, "sign": st.sampled_from([1, -1]), "absolute": st.booleans(), "locale": st.sampled_from(["en", "fr", "ru"])})
+
+    def check(self, case, ctx):
+        def mk(kind, off, zone, u):
+            if kind == "named":
+                return pendulum.instance(T.render(u, zone))
+            r = T.render_fixed(u, off)
+            tz = D.timezone(D.timedelta(seconds=off)) if kind == "stdlib" else pendulum.tz.fixed_timezone(off)
+            return DateTime(*T.fields(r), tzinfo=tz)
+        u1 = case["u1"]
+        u2 = S.clamp_u(u1 + case["sign"] * case["span"])
+        a, b = mk(case["k1"], case["o1"], case["z1"], u1), mk(case["k2"], case["o2"], case["z2"], u2)
+        req(T.us(a) == u1 and T.us(b) == u2, "harness: endpoints not at the requested instants")
+        if a.tzinfo is b.tzinfo or (case["k1"] == case["k2"] and case["k1"] != "named" and case["o1"] == case["o2"]):
+            raise Skip("same tzinfo")
+        au, bu = pendulum.instance(T.render(u1, "UTC")), pendulum.instance(T.render(u2, "UTC"))
+        loc, absolute = case["locale"], case["absolute"]
+        got = a.diff_for_humans(b, absolute=absolute, locale=loc)
+        ref = au.diff_for_humans(bu, absolute=absolute, locale=loc)
+        well_formed("diff_for_humans", got)
+        req(got == ref, "diff_for_humans of two values with different tzinfo differs from the phrase of the same two instants in UTC", got=got, in_utc=ref, a=a.isoformat(),
+            b=b.isoformat(), kinds=[case["k1"], case["k2"]])
+        w1, w2 = (b - a).in_words(locale=loc), (bu - au).in_words(locale=loc)
+        req(w1 == w2, "in_words of the interval of two values with different tzinfo differs from the same two instants in UTC", got=w1, in_utc=w2, a=a.isoformat(), b=b.isoformat())
+        return "stdlib" in (case["k1"], case["k2"]), case["k1"] + "/" + case["k2"]
+
+
+SUBS = [Phrases(), Direction(), InWords(), LocaleTokens(), OtherEntryPoints(), LargeCounts(), CrossTzinfo()]
